@@ -89,9 +89,16 @@ type labelNode struct {
 	l map[string]*labelNode
 }
 
-func (n *labelNode) AddLeaf(label []byte) {
+// Labels up to 24 bytes are stored zero-padded in a fixed size array key.
+// A label that ends with a zero byte would be ambiguous there ("a" and
+// "a\x00" have the same padded key), such labels use the string map.
+func useShortKey(label []byte) bool {
 	l := len(label)
-	if l <= 24 {
+	return l <= 24 && (l == 0 || label[l-1] != 0)
+}
+
+func (n *labelNode) AddLeaf(label []byte) {
+	if useShortKey(label) {
 		if n.s == nil {
 			n.s = make(map[[24]byte]*labelNode)
 		}
@@ -107,8 +114,7 @@ func (n *labelNode) AddLeaf(label []byte) {
 }
 
 func (n *labelNode) GetOrAddChild(label []byte) *labelNode {
-	l := len(label)
-	if l <= 24 {
+	if useShortKey(label) {
 		var key [24]byte
 		copy(key[:], label)
 		if child := n.s[key]; child != nil {
@@ -134,8 +140,7 @@ func (n *labelNode) GetOrAddChild(label []byte) *labelNode {
 }
 
 func (n *labelNode) GetChild(label []byte) (child *labelNode, ok bool) {
-	l := len(label)
-	if l <= 24 {
+	if useShortKey(label) {
 		var key [24]byte
 		copy(key[:], label)
 		child, ok = n.s[key]
